@@ -84,7 +84,7 @@ def _attempt(init, kind, side, amt, lim, stp, close, fee, bp, qp):
         else:
             call(e.create_stop_limit_order(op, P, amt, stp, lim))
         ok = True
-    except errors.NotEnoughBalance:
+    except errors.Error:  # whatever error class the exchange chooses to refuse a request with
         ok = False
     bal = call(e.get_balances())
     return ok, {k: v.hold for k, v in bal.items() if v.hold}
@@ -101,9 +101,13 @@ def _boundary(sc, res):
             for units in UNITS:
                 amt = units * ub
                 for price in prices:
-                    for close in (prices[0], prices[-1], None):
+                    for close in (prices[0], prices[-1], None) + ((("other-stop",),) if kind == "sl" else ()):
                         lim = price if kind in ("lim", "sl") else None
                         stp = price if kind in ("stp", "sl") else None
+                        if close == ("other-stop",):
+                            # a stop-limit order reserves at its LIMIT price, whatever the stop price is
+                            stp = prices[0] if price != prices[0] else prices[-1]
+                            close = prices[0]
                         m = dict(kind=kind, side=side, pair=0, amt=amt, lim=lim, stp=stp, close_at_accept=close)
                         R = {k: v for k, v in reservation(cfg, m).items() if v}
                         case = dict(kind="boundary", bp=bp, qp=qp, fee=fee, order=[kind, side, str(amt), str(lim), str(stp)],
